@@ -83,6 +83,18 @@ class FaultPoint(torch.nn.Module):
 		return _FaultFn.apply(x)
 
 
+class ScaleBuf(torch.nn.Module):
+	"""A layer holding a float64 buffer whatever the dtype of the parameters
+	(e.g. normalisation constants built from a NumPy array)."""
+
+	def __init__(self):
+		super().__init__()
+		self.register_buffer("scale", torch.tensor([0.75, 1.25], dtype=torch.float64))
+
+	def forward(self, x):
+		return x * self.scale.to(x.dtype).mean()
+
+
 class CustomAct(torch.nn.Module):
 	"""A user-defined activation that needs `additional_nonlinear_ops`."""
 
@@ -144,6 +156,8 @@ class GenModel(torch.nn.Module):
 				m = torch.nn.BatchNorm1d(C)
 			elif t == "fault":
 				m = FaultPoint()
+			elif t == "scalebuf":
+				m = ScaleBuf()
 			else:
 				raise ValueError(t)
 			layers.append(m)
@@ -200,6 +214,9 @@ def build_model(spec):
 	m = GenModel(spec)
 	dtype = torch.float64 if spec.get("dtype", "float64") == "float64" else torch.float32
 	m = m.to(dtype)
+	for sub in m.modules():
+		if isinstance(sub, ScaleBuf):
+			sub.scale = sub.scale.to(torch.float64)     # stays double in a float32 net
 	with torch.no_grad():
 		for p in m.parameters():
 			p.copy_(torch.randn(p.shape, generator=g, dtype=torch.float64).to(dtype)
@@ -301,6 +318,8 @@ def gen_spec(r, L=None, need_nonlinear=True, allow_custom=True, allow_args=True,
 			head.insert(0, {"t": "fault"})
 	if need_nonlinear and not has_nl:
 		trunk.append({"t": "act", "name": "ReLU"})
+	if r.chance(0.15):
+		trunk.insert(r.randint(0, len(trunk)), {"t": "scalebuf"})
 	head.append({"t": "linear", "out": n_targets})
 	return {"L": L, "trunk": trunk, "head": head, "n_targets": n_targets,
 		"n_args": (1 if (allow_args and r.chance(0.25)) else 0),
